@@ -219,8 +219,8 @@ def run(tier):
     if True:
         # (M) exhaustive: the Writer contract is balanced and separate_complex_types content-preserving on every
         # document of <= 2 builder actions over the whole vocabulary
-        cfg = tlc.cfg_text(next_="WNext", constants={"MaxDepth": 5, "MaxSteps": 2 if quick else 3, "Ids": {1}, "StepPosts": False, "Mode": "all"},
-                           invariants=["WriterBalanced", "SepSameContent"]) + "CONSTANT Cases <- CasesOne\n"
+        cfg = tlc.cfg_text(next_="WNext", constants={"MaxDepth": 5, "MaxSteps": 2, "Ids": {1} if quick else {1, 2}, "StepPosts": False, "Mode": "all"},
+                           invariants=["WriterBalanced", "SepSameContent"]) + ("CONSTANT Cases <- CasesOne\n" if quick else "")
         r = tlc.run("Writer", cfg, tag="writer_mc", workers=16, timeout=3000)
         ck.add_tlc("writer_mc", r)
         if r.violated:
